@@ -221,6 +221,7 @@ func (ex *Exec) loopHead(fr *Frame, b *ssa.BasicBlock, ord int, pred *ssa.BasicB
 
 func (ex *Exec) havocSet(st *State, ws *WriteSet, pre map[*Cell]bool) {
 	vc := ex.vc
+	st.backForget(nil)
 	// earlier iterations may have allocated: the allocation frontier of an arbitrary iteration is some value
 	// not below the one at loop entry (so that `allocated(x)` in an invariant speaks about the current frontier)
 	if st.allocTop.S != "" {
